@@ -657,5 +657,77 @@ func TestVerifBounded(t *testing.T) {
 		}
 	}
 	closeRt()
+
+	// ---- 4. many signatures: multi-value blocks whose type index lies beyond 64 (two-byte LEB128 territory),
+	//         also inside an else arm and with a signature nothing else uses; a memory with max == min
+	sb.Reset()
+	sb.WriteString("(module $types\n\t(memory 1 1)\n")
+	tys := []string{"i32", "i64", "f32", "f64"}
+	nsig := 0
+	var sigs func(prefix []string)
+	sigs = func(prefix []string) {
+		if len(prefix) > 0 {
+			sb.WriteString(fmt.Sprintf("\t(func $sig%d", nsig))
+			for _, p := range prefix {
+				sb.WriteString(" (param " + p + ")")
+			}
+			sb.WriteString(")\n")
+			nsig++
+		}
+		if len(prefix) == 3 {
+			return
+		}
+		for _, ty := range tys {
+			sigs(append(prefix, ty))
+		}
+	}
+	sigs(nil)
+	sb.WriteString(`	(func $mv (export "mv") (param i32) (result i32)
+		block $b (result i64 i32 f64)
+			i64.const 7
+			local.get 0
+			f64.const 2.5
+		end
+		drop
+		local.set 0
+		i32.wrap_i64
+		local.get 0
+		i32.add
+	)
+	(func $mvelse (export "mvelse") (param i32) (result i32)
+		local.get 0
+		if $l (result i32)
+			i32.const 100
+		else
+			block $only (result f32 i64 i32)
+				f32.const 1.5
+				i64.const 9
+				i32.const 200
+			end
+			local.set 0
+			i32.wrap_i64
+			local.get 0
+			i32.add
+			local.set 0
+			i32.trunc_f32_s
+			local.get 0
+			i32.add
+		end
+	)
+	(func $growfixed (export "growfixed") (result i32)
+		i32.const 1
+		memory.grow
+	)
+)
+`)
+	m, closeRt = zzRuntime(t, sb.String())
+	for _, c := range []call{{"mv", []uint64{5}, 12}, {"mv", []uint64{40}, 47}, {"mvelse", []uint64{1}, 100}, {"mvelse", []uint64{0}, 210}, {"growfixed", nil, 0xffffffff}} {
+		cases++
+		got := zzCall(t, m, c.name, c.args...)
+		if len(got) != 1 || got[0]&0xffffffff != c.want {
+			t.Fatalf("COUNTEREXAMPLE function %s%v of a module with %d distinct signatures: the assembled module computes %#x, WebAssembly defines %#x", c.name, c.args, nsig, got, c.want)
+		}
+	}
+	closeRt()
 	fmt.Printf("BOUNDED {\"cases\": %d, \"bound\": \"the 123 numeric instructions of WebAssembly 1.0 on a grid of 12-18 boundary operands per type (traps excluded); 9 stores x 14 loads x 7 offsets x 2 alignments against a byte-array model; 26 calls of 15 control-flow / index-space functions (shadowed and outer labels, br_table, loops, multi-value if, calls over imports and definitions, call_indirect, named and numbered locals, globals, select, memory.size/grow, constants, a start function that is not the first definition); assembled by Wat2Wasm, executed on the embedded engine, compared with the semantics written in Go\"}\n", cases)
 }
